@@ -24,9 +24,11 @@ func init() { vk.RegisterWorker("c10", worker) }
 
 func Main(prop, tier string) int {
 	r := vk.New("C10", tier)
-	r.Rule = "lines over an alphabet with blanks, three literal delimiters (one multi-byte), multi-byte and wide runes x {AWK, 4 literal, 4 regex delimiters (one matching empty)} : (1) partition law and recorded offsets of Tokenize, (2) every range expression with bounds -6..6 (exhaustive) against a reference selector via Transform and the with-nth template renderer, (3) --nth matching of single- and multi-term queries against the reference evaluator applied per selected field, offsets/positions checked against the full line. distinct = (delimiter kind, field count, range expression | term kind, outcome) signatures"
+	r.Rule = "lines over an alphabet with blanks, three literal delimiters (one multi-byte), multi-byte and wide runes x {AWK, 4 literal, 4 regex delimiters (one matching empty)} : (1) partition law and recorded offsets of Tokenize, (2) every range expression with bounds -6..6 (exhaustive) against a reference selector via Transform and the with-nth template renderer, (3) --nth matching of single- and multi-term queries against the reference evaluator applied per selected field, offsets/positions checked against the full line, (4) the program itself on one record with -1: --accept-nth E prints the documented fields of the original line (last delimiter stripped), with and without --ansi colour codes in the record and an unrelated --with-nth. distinct = (delimiter kind, field count, range expression | term kind, outcome) signatures"
 	r.Assumptions = []string{"which expressions are syntactically valid follows the documentation: N, -N, A..B, A.., ..B, .. with non-zero bounds", "for --nth the trailing delimiter of the last selected field and trailing blanks are not part of the searchable field (documented: 'to allow suffix match')", "queries for the --nth oracle avoid delimiter characters"}
 	r.Fanout("c10", vk.NumWorkers(), 30*time.Minute)
+	r.Fanout("c10bin", vk.NumWorkers(), 30*time.Minute)
+	r.Floor("accept_nth_runs", 500)
 	r.Floor("partition_checked", 1000)
 	r.Floor("ranges_checked", 1000)
 	r.Floor("nth_matches_checked", 500)
